@@ -187,7 +187,7 @@ Proof.
 Qed.
 
 Lemma wf_get_by_index v i x : wf_shape v = true -> get_by_index_t v i = Some x -> wf_shape x = true.
-Proof. intros Hv H. destruct v; cbn [get_by_index_t] in H; try discriminate. eapply forallb_nth; eauto. Qed.
+Proof. intros Hv H. destruct v; cbn [get_by_index_t] in H; try discriminate. destruct (lenN l <=? i); [discriminate H|]. eapply forallb_nth; eauto. Qed.
 Lemma lookup_member k o (x : value) : assoc_lookup k o = Some x -> In x (map snd o).
 Proof. induction o as [|[k' v'] o IH]; cbn [assoc_lookup map snd]; [discriminate|]. destruct (bytes_eqb k k'); intros H; [inversion H; subst; left; reflexivity|right; auto]. Qed.
 Lemma first_ci_member k o (x : value) : first_ci k o = Some x -> In x (map snd o).
